@@ -129,7 +129,9 @@ Definition row_step (sc : scope) (stack : list scope) (acc : pgres (list sccol))
   else
     (* an un-aliased function call is named after the function; other expressions get
        a name nobody can refer to ("?column?"), here "" *)
-    let dflt := if is_kind "FuncCall" v then str_of "Name" (kid "Func" v) else "" in
+    let dflt := if is_kind "FuncCall" v then str_of "Name" (kid "Func" v)
+                else if is_kind "SubLink" v && Z.eqb (int_of "SubLinkType" v) 0 then "exists"      (* EXISTS (...) is called exists *)
+                else "" in
     POk (row ++ [mkSC (match str_opt "Name" res with Some a => a | None => dflt end) None]).
 Definition row_of (sc : scope) (stack : list scope) (targets : list node) : pgres (list sccol) :=
   fold_left (row_step sc stack) targets (POk []).
